@@ -348,7 +348,8 @@ OnlyNewGeneration == <>[](Final \/ \A p \in m.W : p > m.relAge)
 ByTerm == m.cause \in {"term", "quick"}
 ExitStatusZeroOnTerm == (m.pc = "Done" /\ ByTerm) => m.xstat = 0
 NothingLeftBehind == (m.pc = "Done" /\ ByTerm) => (Live = {} /\ ~m.lopen /\ ~m.pidf)
-ExitWithinGraceful == (m.stopping /\ ByTerm) => m.el <= Graceful
+\* + 1: the while condition of stop() may have been evaluated just before the handler emptied WORKERS
+ExitWithinGraceful == (m.stopping /\ ByTerm) => m.el <= Graceful + 1
 TermIsGraceful == (m.pc = "Kill" /\ m.cause = "term" /\ m.stopping) => m.ks \in {"TERM", "KILL"}
 KillAfterDeadline ==
   (m.pc = "Kill" /\ m.cause = "term" /\ m.stopping /\ m.ks = "KILL" /\ st[m.kp] \in {"run", "hung"}) => m.rem = 0
